@@ -82,6 +82,11 @@ expressions
     `str` literals of `[A-Za-z0-9_ .:-]*` as opaque `String`s (`PYSTR`); a spec'd METHOD call whose trailing arguments are passed by
     keyword, in parameter order (`PureSpec.call_keywords`: all parameter names of the method); the builtin `int` as a spec'd call
     (`calls[(None, "int")]`, refused when the module re-binds the name)
+  * pure functions, W32: `while True:` (not nested; no loop / comprehension / lambda inside; no `else`) → `for _ in List.replicate fuel ()`
+    with a `broke` flag set before every `break`; after the loop `return none` = OUT OF FUEL; the function's result becomes `Option T`
+    (`some r` = Python's result; refused when the result is already Optional or the spec has no `(fuel : Nat)` binder); `hasattr(obj, name)`
+    through `PureSpec.hasattr`; `s.endswith("<ASCII literal>")` on a `str` (→ `List.isSuffixOf`); f-string interpolation of a provably
+    non-negative int (→ `Nat.toDigits 10`); `PureSpec.final_store`: the last statement `self.<attr>[k] = <parameter>` rendered as `return k`
   * several `def`s of one name in a class / module (typing.overload stubs): the LAST one is translated (Python's binding)
   * function headers: decorators `property`, `override`, `staticmethod` only; parameter defaults must be constants (they concern the
     callers; the rendering takes every parameter explicitly); annotations are never consulted
@@ -239,6 +244,8 @@ class Translator:
         self.emitting = False
         self.pure_ret = None     # return type of a pure function
         self.in_loop = 0
+        self.fuel_ok = False
+        self.loop_flags = []                                                # W32: per open loop: the `broke` flag of a `while True:`, None for a `for`
         self.comp_vars = set()   # variables bound by comprehensions (own scope in Python 3)
         self.raising = False     # the expression being translated contains an operation that can raise
 
@@ -445,8 +452,11 @@ class Translator:
                 e = self.ex(v.value)
                 if e.ty is None:
                     return E("_", STR)
+                if e.ty == NAT:                                             # W32: `str(i)` of a non-negative int: its decimal digits
+                    parts.append(f"Nat.toDigits 10 {e.code}")
+                    continue
                 if e.ty != STR:
-                    raise Unsupported(n, f"f-string interpolation of a {lean_ty(e.ty)} (only str)")
+                    raise Unsupported(n, f"f-string interpolation of a {lean_ty(e.ty)} (only str / non-negative int)")
                 parts.append(e.code)
             else:
                 raise Unsupported(n, "f-string with conversion / format spec")
@@ -679,6 +689,29 @@ class Translator:
                 if rec is None or missing:
                     raise Unsupported(n, f"{f.id} of a {lean_ty(a.ty)} against {missing or [x.id for x in names]}: not declared in the spec")
                 return E("(" + " ∨ ".join(table[(rec, x.id)].format(a.code) for x in names) + ")", BOOL)
+        if isinstance(f, ast.Name) and f.id == "hasattr" and len(n.args) == 2 and not n.keywords and self.pure is not None \
+                and self.pure.hasattr and not self._module_binds("hasattr") and "hasattr" not in self.vt:
+            # W32: hasattr(obj, name) for a record whose attribute lookup the spec names (`PureSpec.hasattr`: record -> template of
+            # "the lookup of {0} succeeds"); hasattr itself never raises AttributeError
+            rec, obj = self._record_of(n.args[0])
+            nm = self.ex(n.args[1])
+            if rec is None or rec not in self.pure.hasattr:
+                raise Unsupported(n, "hasattr of an object whose attribute lookup the spec does not name")
+            if nm.ty is None:
+                return E("_", BOOL)
+            if nm.ty != STR:
+                raise Unsupported(n, "hasattr with a name that is not a str")
+            return E(self.pure.hasattr[rec].format(nm.code, obj=obj), BOOL)
+        if isinstance(f, ast.Attribute) and f.attr == "endswith" and len(n.args) == 1 and not n.keywords and self.pure is not None \
+                and isinstance(n.args[0], ast.Constant) and isinstance(n.args[0].value, str) and n.args[0].value \
+                and all(32 <= ord(c) < 127 and c not in '"\\' for c in n.args[0].value) \
+                and not (isinstance(f.value, ast.Name) and f.value.id in self.pure.params and self.pure.params[f.value.id][1] is None):
+            # W32: `s.endswith("<non-empty ASCII literal>")` on a `str` (List Char): the literal is a suffix of s
+            a = self.ex(f.value)
+            if a.ty is None:
+                return E("_", BOOL)
+            if a.ty == STR:
+                return E(f'(List.isSuffixOf "{n.args[0].value}".toList {a.code})', BOOL)
         if isinstance(f, ast.Name) and f.id == "cast" and len(n.args) == 2 and not n.keywords:
             # typing.cast(T, e) returns e unchanged at run time; the type T is not consulted (the translator infers its own)
             if not self._imported_from("typing", "cast"):
@@ -1144,6 +1177,10 @@ class Translator:
     def st_Break(self, st, ind):
         if not self.in_loop:
             raise Unsupported(st, "break outside a loop")
+        if self.loop_flags and self.loop_flags[-1] is not None:           # W32: leaving a fuel-bounded `while True:` — not "out of fuel"
+            self.emit(ind, f"{self.loop_flags[-1]} := true", st)
+            self.emit(ind, "break")
+            return True
         self.emit(ind, "break", st)
         return True
 
@@ -1589,9 +1626,44 @@ class Translator:
         self.emit(ind, f"for {pat} in {it.code} do", st)
         self.scopes.append(set(names))
         self.in_loop += 1
+        self.loop_flags.append(None)
         self.block(st.body, ind + 1)
+        self.loop_flags.pop()
         self.in_loop -= 1
         self.scopes.pop()
+        return False
+
+    def st_While(self, st, ind):
+        """W32: `while True:` (left by `break` / `return` only) → at most `fuel` iterations of the body (`for _ in List.replicate fuel ()`:
+        structural recursion on the fuel), then the explicit outcome `return none` = OUT OF FUEL; every other result of the function is
+        `some …`. `fuel` is a binder the spec declares. Python's loop has no bound: the equality theorems show that enough fuel exists."""
+        if self.pure is None or self.slot:
+            raise Unsupported(st, "`while` outside a pure function")
+        if not (isinstance(st.test, ast.Constant) and st.test.value is True):
+            raise Unsupported(st, "`while <condition>` (only `while True:`)")
+        if st.orelse:
+            raise Unsupported(st, "while/else")
+        if self.in_loop:
+            raise Unsupported(st, "`while True:` nested in a loop")
+        for sub in st.body:
+            for x in ast.walk(sub):
+                if isinstance(x, (ast.For, ast.While, ast.comprehension, ast.Lambda)):
+                    raise Unsupported(x, "loop / comprehension / lambda inside `while True:`")
+        if not self.fuel_ok:
+            raise Unsupported(st, "`while True:` needs a `(fuel : Nat)` binder in the spec, a non-Optional result, and no python name `fuel`")
+        flag = f"broke_L{st.lineno}"
+        if flag in self.vt:
+            raise Unsupported(st, f"`{flag}` is a python name")
+        self.emit(ind, f"let mut {flag} := false", st)
+        self.emit(ind, "for _ in List.replicate fuel () do")
+        self.scopes.append(set())
+        self.in_loop += 1
+        self.loop_flags.append(flag)
+        self.block(st.body, ind + 1)
+        self.loop_flags.pop()
+        self.in_loop -= 1
+        self.scopes.pop()
+        self.emit(ind, f"if ¬ {flag} then return none   -- OUT OF FUEL: `fuel` iterations did not leave the loop")
         return False
 
 
@@ -1824,6 +1896,10 @@ class PureSpec:
     # (Lean template of "p, which is not a C", its type there)
     narrow: dict = field(default_factory=dict)
     call_keywords: dict = field(default_factory=dict)   # W28: key of `calls` -> ALL parameter names (trailing arguments may be passed by keyword)
+    hasattr: dict = field(default_factory=dict)    # W32: record -> template of `hasattr({obj}, {0})` (Bool-valued Lean term, `{0}` : List Char)
+    # W32: (attribute of self, parameter): the function's LAST statement may be `self.<attribute>[k] = <parameter>` with `k` a local — its only
+    # effect on the object; rendered as `return k` ("the key under which the parameter is stored"); every read of self precedes it
+    final_store: tuple = ()
     open_ns: str = ""                              # further namespaces opened in the generated file
     prelude: list = field(default_factory=list)    # hand-written Lean lines emitted before the function (glue named by templates)
 
@@ -1853,9 +1929,32 @@ def translate_pure_function(src: str, func: str, spec: PureSpec, namespace: str,
     body = list(fn.body)
     while body and isinstance(body[0], ast.Expr) and isinstance(body[0].value, ast.Constant) and isinstance(body[0].value.value, str):
         body.pop(0)
+    if spec.final_store and body:
+        attr, par = spec.final_store
+        last = body[-1]
+        if not (isinstance(last, ast.Assign) and len(last.targets) == 1 and isinstance(last.targets[0], ast.Subscript)
+                and ast.unparse(last.targets[0].value) == f"self.{attr}" and isinstance(last.targets[0].slice, ast.Name)
+                and isinstance(last.value, ast.Name) and last.value.id == par and par in spec.params):
+            raise Unsupported(last, f"the last statement must be `self.{attr}[<local>] = {par}` (the spec's final store)")
+        if any(isinstance(x, ast.Return) for st_ in body for x in ast.walk(st_)):
+            raise Unsupported(fn, "a `return` in a function with a final store")
+        ret = ast.Return(value=last.targets[0].slice)
+        ast.copy_location(ret, last)
+        ast.fix_missing_locations(ret)
+        body[-1] = ret
+        tr.notes.append(f"L{last.lineno}: the final store `{ast.unparse(last)}` is the function's only effect on the object; "
+                        f"rendered as `return {last.targets[0].slice.id}` (the key under which `{par}` is stored)")
     tr.fn_body = body
     tr.mark_narrowing(body)
     tr.infer(body, {k: v[0] for k, v in spec.params.items()})
+    if any(isinstance(x, ast.While) for st_ in body for x in ast.walk(st_)):
+        # W32: a function with a `while True:` loop returns `some r` for Python's result r and `none` = OUT OF FUEL
+        tr.fuel_ok = bool(re.search(r"\(fuel : Nat\)", spec.binders)) and "fuel" not in tr.vt and tr.pure_ret is not None \
+            and not is_opt(tr.pure_ret)
+        if tr.fuel_ok:
+            tr.pure_ret = opt(tr.pure_ret)
+            tr.notes.append("`while True:` runs at most `fuel` iterations; the result is `some r` for Python's result r, `none` = OUT OF FUEL "
+                            "(Python's loop has no bound; the tie shows which fuel suffices)")
     if tr.pure_ret is None:
         for st in ast.walk(ast.Module(body=body, type_ignores=[])):       # surface the reason (inference swallows it before its last round)
             if isinstance(st, ast.Return) and st.value is not None:
@@ -1883,6 +1982,8 @@ def translate_pure_function(src: str, func: str, spec: PureSpec, namespace: str,
     for fname, table in (("isinstance", spec.isinstance), ("issubclass", spec.issubclass)):
         for (rec, ty), tpl in table.items():
             o.append(f"      {fname}({rec}, {ty}) ↔ {tpl.format('·')} : Bool")
+    for rec, tpl in spec.hasattr.items():
+        o.append(f"      hasattr({rec}, ‹name›) ↔ {tpl.format('‹name›', obj='·')} : Bool")
     for (par, cls), (tpl, ty) in spec.narrow.items():
         o.append(f"      {par}, read where `isinstance({par}, {cls})` is false ↔ {tpl.format(par)} : {lean_ty(ty)}")
     for rec, tpl in spec.eq.items():
@@ -2040,6 +2141,29 @@ def render_itemkey(repo: Path) -> str:
     rel = "odxtools/nameditemlist.py"
     return translate_pure_function((Path(repo) / rel).read_text(), "_get_item_key", ITEMKEY_SPEC, "OdxVerif.Nil.Gen",
                                    ["OdxVerif.Model.Nil", "OdxVerif.Model.PyRt"], rel, cls_name="NamedItemList", lean_name="itemKey")
+
+
+# W32: `ItemAttributeList._add_attribute_item` — the unique-name computation as a pure function of (attribute lookup on the object BEFORE
+# the call, the item's key): `hasattr(self, ·)` is the parameter `taken`, the abstract `self._get_item_key` the parameter `key`
+ADDATTR_SPEC = PureSpec(
+    params={"self": (("Rec", "ItemAttributeList"), None), "item": (("Rec", "Item"), "item")},
+    binders="(taken : Name → Bool) (key : Item → Py.M (List Char)) (fuel : Nat) (item : Item)",
+    calls={("ItemAttributeList", "_get_item_key"): ("(← key {0})", [("Rec", "Item")], STR, True)},
+    hasattr={"ItemAttributeList": "(taken {0})"},
+    final_store=("_item_dict", "item"),
+    open_ns="OdxVerif.Nil")
+
+
+def render_addattr(repo: Path) -> str:
+    rel = "odxtools/nameditemlist.py"
+    return translate_pure_function((Path(repo) / rel).read_text(), "_add_attribute_item", ADDATTR_SPEC, "OdxVerif.Nil.Gen",
+                                   ["OdxVerif.Model.Nil", "OdxVerif.Model.PyRt"], rel, cls_name="ItemAttributeList", lean_name="addAttrName")
+
+
+def regenerate_addattr(repo, verif):
+    # f"{i}" of a non-negative int = its decimal digits (Nat.toDigits 10): checked on this interpreter for a range of values
+    assert all(f"{i}" == str(i) and str(i).isdigit() and int(str(i)) == i and (i == 0 or str(i)[0] != "0") for i in range(0, 3000, 7))
+    return _write(Path(verif) / "lean" / "OdxVerif" / "Gen" / "NilAddAttr.lean", render_addattr(Path(repo)))
 
 
 def regenerate_itemkey(repo, verif):
@@ -2365,9 +2489,9 @@ if __name__ == "__main__":
     if len(sys.argv) > 2:
         for regen in (regenerate_isotp, regenerate_staticlen, regenerate_muxkey, regenerate_limit, regenerate_inherit_prio,
                       regenerate_itemkey, regenerate_odxlink_resolve, regenerate_required,
-                      regenerate_findsvc, regenerate_scale_applies, regenerate_segment_applies, regenerate_get_comparam, regenerate_accessors):
+                      regenerate_findsvc, regenerate_scale_applies, regenerate_segment_applies, regenerate_get_comparam, regenerate_accessors, regenerate_addattr):
             print(regen(repo, Path(sys.argv[2])))
     else:
         for render in (render_isotp, render_staticlen, render_muxkey, render_limit, render_inherit_prio, render_itemkey, render_odxlink_resolve, render_required,
-                       render_findsvc, render_scale_applies, render_segment_applies, render_get_comparam, render_accessors):
+                       render_findsvc, render_scale_applies, render_segment_applies, render_get_comparam, render_accessors, render_addattr):
             sys.stdout.write(render(repo))
